@@ -4,9 +4,7 @@ import (
 	"bytes"
 	"encoding/json"
 	"fmt"
-	"strings"
 	"testing"
-	"time"
 
 	"github.com/zmap/zlint/v3/lint"
 	"pgregory.net/rapid"
@@ -15,8 +13,6 @@ import (
 	"verifharness/gen"
 	"verifharness/model"
 	"verifharness/stats"
-
-	dt "verifharness/dertree"
 )
 
 type rulePair struct {
@@ -161,200 +157,31 @@ var (
 
 func TestC20(t *testing.T) {
 	rec := newRec(t, "C20")
-	hm := homeObjects()
-	co := gen.LoadCorpus()
-	// bases per family: corpus certificates that are home to both members of some pair of the family
-	famBases := map[string][]int{}
 	for _, p := range rulePairs {
-		in := map[int]bool{}
-		for _, i := range hm[p.A] {
-			in[i] = true
-		}
-		for _, i := range hm[p.B] {
-			if in[i] {
-				famBases[p.Fam] = append(famBases[p.Fam], i)
-			}
-		}
-		if len(hm[p.A]) == 0 || len(hm[p.B]) == 0 {
+		if len(homeObjects()[p.A]) == 0 || len(homeObjects()[p.B]) == 0 {
 			rec.Class("pair_without_home:" + p.A + "+" + p.B)
 		}
 	}
-	// TLS subscriber bases (homes of the BR dns lints) serve most families
-	tls := famBases["rfc-br-dns"]
-	pickBase := func(rt *rapid.T, fam string) gen.Obj {
-		bs := famBases[fam]
-		if len(bs) == 0 || rapid.IntRange(0, 3).Draw(rt, "tlsbase") == 0 {
-			bs = tls
-		}
-		return co.Certs[bs[rapid.IntRange(0, len(bs)-1).Draw(rt, "base")]]
+	counts := map[string][2]int{"rfc-br-dns": {4000, 130000}, "san-ian": {4000, 130000}, "subject-issuer": {3000, 100000}, "aia": {2000, 60000},
+		"validity": {1500, 40000}, "name-length": {800, 20000}}
+	for _, fam := range []string{"rfc-br-dns", "san-ian", "subject-issuer", "aia", "validity", "name-length"} {
+		fam := fam
+		rapidRun(t, fam, perShard(stats.Scale(counts[fam][0], counts[fam][1])), func(rt *rapid.T) {
+			sc, ok := drawStructured(rt, fam)
+			if !ok {
+				return
+			}
+			c := c20Case{DER: sc.DER, Base: sc.Base, Fam: fam, Desc: sc.Desc}
+			rec.Eval()
+			rec.Class("family_" + fam)
+			if sig, msg := judgeC20(rec, c); msg != "" {
+				fail(rt, rec, "c20", sig, msg, c)
+			}
+			if rec.WantSample() && rapid.IntRange(0, 80).Draw(rt, "smp") == 0 {
+				rec.Sample(map[string]interface{}{"family": fam, "base": sc.Base, "content": sc.Desc})
+			}
+		})
 	}
-	latest := time.Date(2024, 6, 1, 0, 0, 0, 0, time.UTC) // after every member's effective date
-	finish := func(rt *rapid.T, o gen.Obj, v *gen.CertView, fam string, desc []string) {
-		pc, _ := gen.ParseCert(o.DER)
-		if pc != nil && rapid.IntRange(0, 2).Draw(rt, "redate") > 0 && fam != "validity" {
-			gen.Redate(v, pc, latest.Add(time.Duration(rapid.IntRange(0, 200).Draw(rt, "days"))*24*time.Hour), gen.UTCZ)
-		}
-		if pc != nil && pc.SelfSigned {
-			v.SelfSign()
-		}
-		c := c20Case{DER: v.DER(), Base: o.Name, Fam: fam, Desc: desc}
-		rec.Eval()
-		rec.Class("family_" + fam)
-		if sig, msg := judgeC20(rec, c); msg != "" {
-			fail(rt, rec, "c20", sig, msg, c)
-		}
-		if rec.WantSample() && rapid.IntRange(0, 80).Draw(rt, "smp") == 0 {
-			rec.Sample(map[string]interface{}{"family": fam, "base": o.Name, "content": desc})
-		}
-	}
-	rapidRun(t, "dns", perShard(stats.Scale(4000, 130000)), func(rt *rapid.T) {
-		o := pickBase(rt, "rfc-br-dns")
-		v, err := gen.ViewCert(o.DER)
-		if err != nil {
-			return
-		}
-		n := rapid.IntRange(1, 5).Draw(rt, "n")
-		var gns []*dt.Node
-		var desc []string
-		for i := 0; i < n; i++ {
-			var s string
-			if rapid.IntRange(0, 5).Draw(rt, "rndname") == 0 {
-				s = rapid.StringMatching(`[a-z0-9_*.-]{1,30}\.(com|org|co\.uk|invalid)`).Draw(rt, "name")
-			} else {
-				s = gen.DNSDict[rapid.IntRange(0, len(gen.DNSDict)-1).Draw(rt, "dns")]
-			}
-			gns = append(gns, gen.GNDNS([]byte(s)))
-			desc = append(desc, s)
-		}
-		v.SetSAN(false, gns...)
-		switch rapid.IntRange(0, 2).Draw(rt, "cn") {
-		case 0:
-			v.RemoveCN()
-			desc = append(desc, "cn:none")
-		case 1:
-			cn := desc[rapid.IntRange(0, n-1).Draw(rt, "cnidx")]
-			v.SetCN([]byte(cn), 12)
-			desc = append(desc, "cn:"+cn)
-		default:
-			desc = append(desc, "cn:kept")
-		}
-		finish(rt, o, v, "rfc-br-dns", desc)
-	})
-	rapidRun(t, "san-ian", perShard(stats.Scale(4000, 130000)), func(rt *rapid.T) {
-		o := pickBase(rt, "san-ian")
-		v, err := gen.ViewCert(o.DER)
-		if err != nil {
-			return
-		}
-		n := rapid.IntRange(0, 4).Draw(rt, "n")
-		var gns, gns2 []*dt.Node
-		var desc []string
-		for i := 0; i < n; i++ {
-			g, d := gen.DrawGN(rt)
-			if rapid.IntRange(0, 6).Draw(rt, "hostile") == 0 {
-				b := gen.Dict[rapid.IntRange(0, len(gen.Dict)-1).Draw(rt, "dict")]
-				if len(b) < 400 {
-					arm := rapid.SampledFrom([]uint32{1, 2, 6}).Draw(rt, "arm")
-					g, d = dt.Prim(2, arm, b), fmt.Sprintf("arm%d:%q", arm, short(string(b), 40))
-				}
-			}
-			gns = append(gns, g)
-			gns2 = append(gns2, g.Clone())
-			desc = append(desc, d)
-		}
-		v.SetSAN(false, gns...)
-		v.SetIAN(gns2...)
-		finish(rt, o, v, "san-ian", desc)
-	})
-	strTags := []uint32{12, 19, 20, 22, 30, 28}
-	rapidRun(t, "subject-issuer", perShard(stats.Scale(3000, 100000)), func(rt *rapid.T) {
-		o := pickBase(rt, "subject-issuer")
-		v, err := gen.ViewCert(o.DER)
-		if err != nil {
-			return
-		}
-		var rdns [][]*dt.Node
-		var desc []string
-		for i, n := 0, rapid.IntRange(1, 5).Draw(rt, "nrdn"); i < n; i++ {
-			var rdn []*dt.Node
-			for j, m := 0, rapid.SampledFrom([]int{1, 1, 1, 2, 3}).Draw(rt, "natv"); j < m; j++ {
-				oid := rapid.SampledFrom([][]int{gen.OIDC, gen.OIDO, gen.OIDOU, gen.OIDCN, gen.OIDL, gen.OIDST, gen.OIDSerial, gen.OIDGiven, gen.OIDSurname}).Draw(rt, "attr")
-				val := rapid.SampledFrom([]string{"US", "us", " US", "DE ", "Example Org", " lead", "trail ", "  both  ", "x", "", "\tx", "x\n", "Exämple", "Jane", "Doe"}).Draw(rt, "val")
-				tag := strTags[rapid.IntRange(0, len(strTags)-1).Draw(rt, "tag")]
-				b := []byte(val)
-				if tag == 30 { // BMPString: UTF-16BE
-					b = nil
-					for _, r := range val {
-						b = append(b, byte(r>>8), byte(r))
-					}
-				}
-				rdn = append(rdn, gen.ATV(oid, tag, b))
-				desc = append(desc, fmt.Sprintf("%v/%d=%q", oid[len(oid)-1], tag, val))
-			}
-			rdns = append(rdns, rdn)
-		}
-		name := gen.RDNSeq(rdns...)
-		v.SetSubject(name)
-		v.SetIssuer(name.Clone())
-		finish(rt, o, v, "subject-issuer", desc)
-	})
-	rapidRun(t, "aia", perShard(stats.Scale(2000, 60000)), func(rt *rapid.T) {
-		o := pickBase(rt, "aia")
-		v, err := gen.ViewCert(o.DER)
-		if err != nil {
-			return
-		}
-		var ads []*dt.Node
-		var desc []string
-		for i, n := 0, rapid.IntRange(1, 3).Draw(rt, "n"); i < n; i++ {
-			u := gen.URIDict[rapid.IntRange(0, len(gen.URIDict)-1).Draw(rt, "uri")]
-			if rapid.IntRange(0, 3).Draw(rt, "internal") == 0 {
-				u = "http://" + rapid.SampledFrom([]string{"intranet", "ocsp.corp", "ca.local", "10.1.2.3", "[::1]", "ocsp.example.com", "host.invalidtld", "x.test", "ca.example.com:8080", "%41.com"}).Draw(rt, "host") + "/x"
-			}
-			m := oidOCSP
-			if rapid.Bool().Draw(rt, "caissuers") {
-				m = oidCAIssuers
-			}
-			ads = append(ads, dt.Seq(dt.OID(m...), gen.GNURI([]byte(u))))
-			desc = append(desc, u)
-		}
-		v.SetExt(gen.OIDExtAIA, false, dt.Seq(ads...))
-		// both scopes: serverAuth + emailProtection, S/MIME policy, e-mail SAN
-		v.SetEKU(gen.EKUServerAuth, gen.EKUEmail)
-		v.SetPolicies([]int{2, 23, 140, 1, 2, 1}, []int{2, 23, 140, 1, 5, 1, rapid.IntRange(1, 3).Draw(rt, "gen")})
-		v.SetSAN(false, gen.GNDNS([]byte("www.example.com")), gen.GNEmail([]byte("user@example.com")))
-		finish(rt, o, v, "aia", desc)
-	})
-	rapidRun(t, "validity", perShard(stats.Scale(1500, 40000)), func(rt *rapid.T) {
-		o := pickBase(rt, "validity")
-		v, err := gen.ViewCert(o.DER)
-		if err != nil {
-			return
-		}
-		nb := time.Date(2020, 9, 1, 0, 0, 0, 0, time.UTC).Add(time.Duration(rapid.IntRange(-3, 1500).Draw(rt, "day")) * 24 * time.Hour)
-		days := rapid.SampledFrom([]int{396, 397, 398, 399, 365, 825}).Draw(rt, "days")
-		off := rapid.SampledFrom([]int{-2, -1, 0, 1, 2, 86399}).Draw(rt, "off")
-		na := nb.Add(time.Duration(days)*24*time.Hour + time.Duration(off)*time.Second)
-		v.SetValidity(nb, na, gen.TimeForm(rapid.IntRange(0, 3).Draw(rt, "form")))
-		finish(rt, o, v, "validity", []string{fmt.Sprintf("notBefore=%s length=%dd%+ds", nb.Format(time.RFC3339), days, off)})
-	})
-	rapidRun(t, "name-length", perShard(stats.Scale(800, 20000)), func(rt *rapid.T) {
-		o := pickBase(rt, "name-length")
-		v, err := gen.ViewCert(o.DER)
-		if err != nil {
-			return
-		}
-		mk := func(lbl string) (int, []byte) {
-			n := rapid.SampledFrom([]int{1, 63, 64, 65, 66, 32767, 32768, 32769, 33000}).Draw(rt, lbl)
-			unit := rapid.SampledFrom([]string{"a", "é", "€"}).Draw(rt, lbl+"unit")
-			return n, []byte(strings.Repeat(unit, n))
-		}
-		gl, gv := mk("given")
-		sl, sv := mk("surname")
-		subj := v.Subject()
-		subj.Children = append(subj.Children, dt.Set(gen.ATV(gen.OIDGiven, 12, gv)), dt.Set(gen.ATV(gen.OIDSurname, 12, sv)))
-		finish(rt, o, v, "name-length", []string{fmt.Sprintf("givenName=%d runes surname=%d runes", gl, sl)})
-	})
 	rapidRun(t, "generated", perShard(stats.Scale(4000, 100000)), func(rt *rapid.T) {
 		// any generated certificate: pairs whose members both run are judged too (DSA, etc.)
 		cc := gen.DrawCert(rt, 3, true)
